@@ -1961,6 +1961,15 @@ impl Merger {
         if self.params.when_matched != WhenMatched::DoNothing {
             let mut matched = arrow::compute::filter_record_batch(&batch, &in_both)?;
 
+            // `WhenMatched::Fail` must reject the whole operation on the first match (as the
+            // plan-based path does), not fall through to the update-all handling below.
+            if self.params.when_matched == WhenMatched::Fail && matched.num_rows() > 0 {
+                return Err(DataFusionError::Execution(format!(
+                    "Merge insert failed: found matching row with key values: {}",
+                    format_key_values_on_columns(&matched, 0, &self.params.on)
+                )));
+            }
+
             if let Some(match_filter) = self.match_filter_expr {
                 let unzipped = unzip_batch(&matched, &self.schema);
                 let filtered = match_filter.evaluate(&unzipped)?;
